@@ -14,11 +14,11 @@ META = dict(
     level="exploration",
     design_ref="DESIGN.md §5 C35",
     technique="numerical inversion monitor: the real QuadKerBase.integrand (N-space basis x Talbot path x jacobian x prefactor) integrated with scipy.quad exactly as run_op_integration does (limits 0.5..0.95, epsabs 1e-12, epsrel 1e-5, limit 100) and, as a sharp structural monitor, with the Mellin cut reduced to 0.0005; both compared with an exact-rational Lagrange basis",
-    level_text="Randomised exploration over log grids (4-12 points, x_min 1e-6..0.1, degree 1-4), every basis function at every node below 1 and at random interior points, non-singlet and singlet contour. The fine-cut monitor decides each evaluation to 1e-5 (quad's own accuracy), so a wrong coefficient, jacobian, prefactor or path/jacobian mismatch cannot hide; the solver-cut monitor bounds the truncation error of the solver's own limits.",
+    level_text="Randomised exploration over log grids (4-12 points, x_min 1e-6..0.1, degree 1-4), every basis function at every node below 1 (ln x bit-identical to the stored node, and one ulp above/below it), at random interior points and at points a relative 1e-6..1e-4 in ln x below/above interior nodes, non-singlet and singlet contour. The fine-cut monitor decides each evaluation to 1e-5 (quad's own accuracy), so a wrong coefficient, jacobian, prefactor or path/jacobian mismatch cannot hide; the solver-cut monitor bounds the truncation error of the solver's own limits.",
     level_note="Trusted base: vlib/oracles/interp.py (Interpolation.rst in exact rationals), scipy.integrate.quad. The solver-cut monitor is applied to quasi-uniform (jittered geometric) grids only; its tolerances (1e-2 at nodes, 8e-2 at interior points for degree>=2) are about 3x the worst truncation error seen on ~450 such grids of the tree (3.2e-3 / 2.2e-2 in the thorough run; on irregular grids the cut alone costs up to 3e-2) and shown to be pure truncation error (it vanishes like 1e-3 -> 6e-7 -> 2e-11 for cut 0.05 -> 0.02 -> 0.01); DESIGN.md's 2e-4 was under-calibrated. Any admissible contour gives the same integral, so a changed contour parameter is visible only through accuracy.",
     rule="case = (grid, degree, contour class, inversion point): all basis functions inverted at that point; distinct by grid sha/point; non-trivial = at least one inversion actually integrated (support reaches above the point) with |exact value| or |integral| > 1e-3, and the grid has more nodes than degree+1",
     min_nontrivial=150,
-    required_hits=["solver_cut_node", "solver_cut_interior", "fine_cut"],
+    required_hits=["solver_cut_node", "solver_cut_interior", "fine_cut", "node_ulp", "near_node"],
     max_inconclusive_frac=0.05,
 )
 
@@ -94,21 +94,48 @@ def _one(item):
     B = orc.Basis(np.log(xs), d)
     # upper end of the support of p_j (from the oracle's blocks): below it the inversion is a real integral
     support_hi = [B.us_f[max(i for i, (a, b) in enumerate(B.blocks) if a <= j <= b) + 1] for j in range(n)]
-    pts = [(float(x), "node", k) for k, x in enumerate(xs[:-1])]
+    us = B.us_f
+    # (x, kind, ln x, basis functions to invert or None = all, solver-cut monitor too?)
+    pts = [(float(x), "node", float(np.log(x)), None, True) for x in xs[:-1]]
     n_int = 3 if tier == "quick" else 4
     for _ in range(n_int):
-        pts.append((float(np.exp(rng.uniform(math.log(xmin), math.log(0.98)))), "interior", -1))
+        x = float(np.exp(rng.uniform(math.log(xmin), math.log(0.98))))
+        pts.append((x, "interior", float(np.log(x)), None, True))
+
+    def near(k, lx):
+        """Basis functions worth inverting at a point next to node k: the active block and the node's neighbours."""
+        a, b = B.blocks[orc.area_of(us, lx)]
+        return sorted(set(range(a, b + 1)) | {j for j in (k - 1, k, k + 1) if 0 <= j < n})
+
+    # nodes whose logarithm is supplied one ulp off np.log(node) ("at every grid node" must not depend on
+    # how the caller rounded ln x: np.linspace of the logs, np.nextafter, ...)
+    for k in range(n - 1):
+        up = bool(rng.integers(2)) or k == 0  # one ulp below the lowest node is outside the grid
+        lx = float(np.nextafter(us[k], math.inf if up else -math.inf))
+        pts.append((float(xs[k]), "node-ulp", lx, near(k, lx), False))
+    # points a relative 1e-6..1e-4 (in ln x) below and above interior nodes (degree >= 2, as the property states)
+    if d >= 2 and n > 2:
+        for m in rng.choice(np.arange(1, n - 1), size=min(n - 2, 3 if tier == "quick" else 4), replace=False):
+            m = int(m)
+            for sign in (+1, -1):  # +1: below the node (ln x more negative)
+                r = float(10 ** rng.uniform(-6, -4))
+                lx = float(us[m] * (1.0 + sign * r))
+                if us[m - 1] < lx < us[m + 1] and lx != us[m]:
+                    pts.append((float(np.exp(lx)), "near-node", lx, near(m, lx), False))
     modes = [("ns", int(rng.choice(NS_MODES)) if rng.random() < 0.3 else 10101), ("singlet", int(rng.choice(S_MODES)) if rng.random() < 0.3 else 100)]
-    for x, kind_pt, k in pts:
-        lx = float(np.log(x))
+    for x, kind_pt, lx, jset, with_solver in pts:
         want, area = B.row_float(lx)
         for cname, mode0 in modes:
             integrated = 0
             big = False
             case_bad = False
             for j, bf in enumerate(disp):
+                if jset is not None and j not in jset:
+                    continue
                 areas = bf.areas_representation
                 for which, cut in (("solver", CUT_SOLVER), ("fine", CUT_FINE)):
+                    if which == "solver" and not with_solver:
+                        continue
                     if which == "solver" and kind_pt == "interior" and d < 2:
                         continue  # the property states arbitrary points only for degree >= 2
                     if which == "solver" and kind != "geom-jitter":
@@ -136,6 +163,8 @@ def _one(item):
                         tol, mon, keyk = TOL_INTERIOR, "solver_cut_interior", f"C35/solver-cut/{cname}/deg{d}/interior"
                         rec["worst"]["interior"] = max(rec["worst"]["interior"], dev)
                     hit(mon)
+                    if kind_pt in ("node-ulp", "near-node"):
+                        hit(kind_pt.replace("-", "_"))
                     if not np.isfinite(val) or dev > tol:
                         if msg is not None and np.isfinite(val) and err > tol:
                             rec["incs"].append(f"quad did not converge ({which} cut): {str(msg)[:60]}")
@@ -143,16 +172,16 @@ def _one(item):
                         case_bad = True
                         fail(
                             keyk,
-                            f"Mellin inversion of p_{j} at x={x!r} ({kind_pt}, mode0={mode0}, cut={cut}) gives {val!r}, x-space basis value is {want[j]!r} (tol {tol:.1e})",
-                            x=x, j=j, mode0=mode0, cut=cut, got=val, want=want[j], quad_err=err,
+                            f"Mellin inversion of p_{j} at x={x!r}, ln x={lx!r} ({kind_pt}, mode0={mode0}, cut={cut}) gives {val!r}, x-space basis value is {want[j]!r} (tol {tol:.1e})",
+                            x=x, logx=lx, j=j, mode0=mode0, cut=cut, got=val, want=want[j], quad_err=err,
                         )
-            rec["cases"].append(((rec["sha"], d, cname, x), bool(integrated and big and n > d + 1), case_bad))
+            rec["cases"].append(((rec["sha"], d, cname, kind_pt, lx), bool(integrated and big and n > d + 1), case_bad))
     return rec
 
 
 def _register(ck, rec):
     for key, nontriv, bad in rec["cases"]:
-        ck.case(key, nontrivial=nontriv, sample=dict(n=rec["n"], degree=rec["d"], grid_kind=rec["kind"], xmin=rec["xmin"], contour=key[2], x=key[3], worst_dev_this_grid=rec["worst"]))
+        ck.case(key, nontrivial=nontriv, sample=dict(n=rec["n"], degree=rec["d"], grid_kind=rec["kind"], xmin=rec["xmin"], contour=key[2], point=key[3], logx=key[4], worst_dev_this_grid=rec["worst"]))
         if not bad:
             ck.ok()
     for k, v in rec["hits"].items():
